@@ -914,6 +914,7 @@ fn check_history(plan: &Plan, versions: &[Workspace], sh: &Shared, stats: &mut R
 pub fn status_name(s: &Status) -> &'static str {
     match s {
         Status::New => "new",
+        Status::Unstarted => "unstarted",
         Status::Running => "running",
         Status::Parked => "parked",
         Status::BlockedOnSnapshots => "blocked-on-snapshots",
